@@ -253,9 +253,13 @@ def run(s):
     s.oblige("C05.read_input_handover", lambda: read_input_ob(qa), ["qha_adapter.QHACalculator.read_input"], kind="finite")
     s.oblige("C05.symmetry_application_callsite", lambda: symmetry_ob(cal), [CA + "_apply_elastic_constants_symmetry"], kind="finite")
     s.oblige("C05.phonon_scheduling_callsite", lambda: scheduling_ob(fm), [FM + "calculate_phonon_contribution"], kind="finite")
+    # "with the crystal-system filling applied first": what is interpolated afterwards is the FILLED table -- every component, the
+    # tabulated ones included (the solve is a soft least squares and may move them), nothing the fill dropped
+    from props import C08
+    s.oblige("C05.static_table_is_the_filled_table", C08.apply_table, ["elast_dat.apply_symetry_on_elast_data"], kind="finite")
     # ---------------- bounded end-to-end
     end_to_end(s)
-    s.min_obligations = 11
+    s.min_obligations = 12
 
 
 def _sel(i, terms):
